@@ -1,3 +1,303 @@
-/- Property theorems for C07 — to be filled in. -/
+/-
+  C07 — concurrent writers never silently overwrite each other.
+
+  Theorems about the executable model `Stab.CasRow` (lean/Stab/Model/CasRow.lean) of `store_stage`
+  (auto-commit and transactional, with / without `expected_phase`) and `upsert_task`, plus the
+  generated SQL shapes (`Stab.Gen.StoreSql`, regenerated from the source on every run).
+  `run (init st nt) ops` ranges over every interleaving of read / modify / write / retry by any number of
+  clients and an outside writer of task rows (`bump`).
+-/
+import Stab.Lemmas.CasRow
+import Stab.Gen.StoreSql
+
 namespace Stab.Props.C07
+open Stab Stab.CasRow
+
+/-! ## the SQL that is modelled (generated tables) -/
+
+open Stab.Gen.StoreSql in
+/-- the store's and the transaction's `store_stage` issue the same UPDATEs -/
+theorem gen_store_and_txn_agree : storePlain = txnPlain ∧ storePhase = txnPhase := by decide
+
+open Stab.Gen.StoreSql in
+/-- every UPDATE of the protocol has `version = :version` in its WHERE clause and bumps the version -/
+theorem gen_every_update_is_cas :
+    ∀ u ∈ [storePlain, storePhase, txnPlain, txnPhase, taskUpdate],
+      u.cond.contains "version = :version" = true ∧ u.cond.contains "id = :id" = true ∧
+      u.set.contains ("version", "version + 1") = true := by decide
+
+open Stab.Gen.StoreSql in
+/-- the `expected_phase` variants add exactly `status = :expected_phase`; the plain ones have nothing else -/
+theorem gen_where_clauses :
+    storePlain.cond = ["id = :id", "version = :version"] ∧
+    storePhase.cond = ["id = :id", "version = :version", "status = :expected_phase"] ∧
+    taskUpdate.cond = ["id = :id", "version = :version"] := by decide
+
+open Stab.Gen.StoreSql in
+/-- the stage UPDATE writes the columns the model's `Content` stands for (status; context, outputs; the two
+    time stamps) and the version — nothing else, and the same in all four statements -/
+theorem gen_set_columns :
+    ∀ u ∈ [storePlain, storePhase, txnPlain, txnPhase],
+      u.table = "stage_executions" ∧
+      u.set.map Prod.fst = ["status", "context", "outputs", "start_time", "end_time", "version"] := by decide
+
+open Stab.Gen.StoreSql in
+/-- `upsert_task`: a fresh row starts at version 0; `rowcount == 0` / IntegrityError become ConcurrencyError;
+    the in-memory versions follow the row versions; the transaction context rolls back on an exception -/
+theorem gen_shapes :
+    taskInsert.contains ("version", "0") = true ∧ taskUpdate.table = "task_executions" ∧
+    storeRowcountZeroRaises = true ∧ txnRowcountZeroRaises = true ∧ taskIntegrityErrorMapped = true ∧
+    storeBumpsLocalVersion = true ∧ txnBumpsLocalVersion = true ∧ taskBumpsLocalVersion = true ∧
+    storeCommits = true ∧ txnStoreStageCommits = false ∧ txnContextRollsBackOnException = true := by decide
+
+/-! ## at most one winner per version -/
+
+/-- **One winner per version.** The versions the successful writes were based on are strictly increasing in
+    commit order — in particular no two successful writes were based on the same version. -/
+theorem one_winner_per_version (st nt : Nat) (ops : List Op) :
+    (run (init st nt) ops).commits.Pairwise (fun a b => a.2 < b.2) :=
+  (commits_run (commits_init st nt) ops).incr
+
+theorem one_winner_per_version_count (st nt : Nat) (ops : List Op) (v : Nat) :
+    ((run (init st nt) ops).commits.filter (fun p => p.2 == v)).length ≤ 1 := by
+  have h := one_winner_per_version st nt ops
+  generalize (run (init st nt) ops).commits = l at h
+  induction l with
+  | nil => simp
+  | cons a l ih =>
+    rw [List.pairwise_cons] at h
+    by_cases e : a.2 = v
+    · have : l.filter (fun p => p.2 == v) = [] := by
+        apply List.filter_eq_nil_iff.mpr
+        intro b hb hc
+        simp only [beq_iff_eq] at hc
+        have := h.1 b hb
+        omega
+      simp [List.filter_cons, e, this]
+    · have e' : (a.2 == v) = false := by simp [e]
+      simp only [List.filter_cons, e']
+      exact ih h.2
+
+/-- two clients hold the same version; the first write succeeds ⇒ the second gets ConcurrencyError
+    (whatever variants / expected phases they use) and changes nothing -/
+theorem second_writer_conflicts (s : State) (c1 c2 : Nat) (o1 o2 : Obj) (t1 t2 : Bool) (p1 p2 : Option Nat)
+    (hne : c1 ≠ c2) (h1 : getObj s c1 = some o1) (h2 : getObj s c2 = some o2) (same : o1.version = o2.version)
+    (ok : (writeOp s c1 t1 p1).2 = .ok) :
+    writeOp (writeOp s c1 t1 p1).1 c2 t2 p2 = ((writeOp s c1 t1 p1).1, .conflict) := by
+  obtain ⟨o, ho, hv, hv1, hother⟩ := writeOp_ok_spec ok
+  rw [h1] at ho
+  cases ho
+  have g2 : getObj (writeOp s c1 t1 p1).1 c2 = some o2 := by rw [hother c2 (fun e => hne e.symm), h2]
+  have hver : ((writeOp s c1 t1 p1).1.db.version == o2.version) = false := by
+    rw [hv1]; simp; omega
+  generalize (writeOp s c1 t1 p1).1 = s1 at g2 hver ⊢
+  unfold writeOp
+  simp [g2, hver]
+
+/-! ## no lost update -/
+
+/-- **No lost update.** If no write ended half-applied (see below: impossible without an outside writer of
+    task rows, and impossible in the transactional variant), then after any interleaving the durable content
+    is the fold of the SUCCESSFUL modifications in commit order, each applied to what its predecessor left. -/
+theorem no_lost_update (st nt : Nat) (ops : List Op) (np : noPartial (init st nt) ops = true) :
+    (run (init st nt) ops).db.content = fold (init st nt).db.content (run (init st nt) ops).log :=
+  (inv_run (inv_init st nt) (by simp [Folded, fold, init]) ops np).2
+
+/-- every successful write was computed from exactly the content it replaced: a client whose snapshot has the
+    current version holds the current content -/
+theorem snapshot_current_iff_version (st nt : Nat) (ops : List Op) (np : noPartial (init st nt) ops = true)
+    (c : Nat) (o : Obj) (h : getObj (run (init st nt) ops) c = some o)
+    (hv : o.version = (run (init st nt) ops).db.version) :
+    o.base = (run (init st nt) ops).db.content ∧ o.cur = fold o.base o.pend := by
+  have hi := (inv_run (c0 := (init st nt).db.content) (inv_init st nt) (by simp [Folded, fold, init]) ops np).1
+  have hm := getObj_mem h
+  exact ⟨hi.fresh (c, o) hm hv, hi.cur (c, o) hm⟩
+
+/-- the transactional variant is all-or-nothing: a ConcurrencyError leaves the state untouched -/
+theorem txn_write_atomic (s : State) (c : Nat) (p : Option Nat) (h : (writeOp s c true p).2 ≠ .ok) :
+    (writeOp s c true p).1 = s ∧ (writeOp s c true p).2 ≠ .conflictPartial := by
+  unfold writeOp at h ⊢
+  split
+  · exact ⟨rfl, by simp⟩
+  · rename_i o ho
+    simp only [ho] at h
+    split
+    · rename_i hg
+      simp only [hg, if_true] at h
+      split
+      rename_i rows mem okk hu
+      simp only [hu] at h
+      split
+      · rename_i hok; simp [hok] at h
+      · exact ⟨rfl, by simp⟩
+    · exact ⟨rfl, by simp⟩
+
+/-
+  FULL STATEMENT (not proved): for every op sequence WITHOUT `bump` (no writer of task rows other than `store_stage`),
+  `noPartial (init st nt) ops = true` — in both variants.  It needs one more invariant (a client whose stage version is
+  current also holds the current task versions, "lock-step"), i.e. a post-condition of `upsertAll` on the in-memory
+  versions; the harness checks it on every bump-free trace instead (monitor `half-applied-write-without-outside-writer`).
+  PROVED below: the hypothesis of `no_lost_update` holds for every sequence whose writes / retries are all
+  transactional — with or without an outside writer.
+-/
+theorem no_half_applied_write_partial (st nt : Nat) (ops : List Op)
+    (htx : ∀ op ∈ ops, ∀ c p, op ≠ .write c false p ∧ op ≠ .retry c false p) :
+    noPartial (init st nt) ops = true := by
+  suffices h : ∀ (s : State), noPartial s ops = true from h _
+  induction ops with
+  | nil => intro s; rfl
+  | cons op ops ih =>
+    intro s
+    simp only [noPartial, Bool.and_eq_true, bne_iff_ne, ne_eq]
+    refine ⟨?_, ih (fun o ho => htx o (by simp [ho])) _⟩
+    have hop := htx op (by simp)
+    cases op with
+    | read c => simp [step]
+    | modify c m => simp only [step]; split <;> simp
+    | bump t => simp [step]
+    | write c t p =>
+      cases t with
+      | false => exact absurd rfl (hop c p).1
+      | true =>
+        by_cases hk : (writeOp s c true p).2 = .ok
+        · simp [step, hk]
+        · exact (txn_write_atomic s c p hk).2
+    | retry c t p =>
+      cases t with
+      | false => exact absurd rfl (hop c p).2
+      | true =>
+        simp only [step, retryOp]
+        split
+        · simp
+        · rename_i o _
+          by_cases hk : (writeOp (reapply (readOp s c) c o.pend) c true p).2 = .ok
+          · simp [hk]
+          · exact (txn_write_atomic _ c p hk).2
+
+/-
+  FULL STATEMENT (false for the auto-commit variant when task rows have another writer):
+    ∀ st nt ops, (run (init st nt) ops).db.content = fold (init st nt).db.content (run (init st nt) ops).log
+  Witness below: the stage UPDATE of `store_stage` succeeds, a later `upsert_task` raises ConcurrencyError, the function
+  re-raises WITHOUT rollback, and the connection's next commit makes the stage UPDATE durable although the caller was
+  told the write failed.
+-/
+def partialOps : List Op :=
+  [.read 0, .modify 0 { setStatus := none, entry := 7, taskSt := none, addTask := false }, .bump 0, .write 0 false none]
+
+theorem no_lost_update_counterexample :
+    ¬ (∀ (st nt : Nat) (ops : List Op),
+        (run (init st nt) ops).db.content = fold (init st nt).db.content (run (init st nt) ops).log) := by
+  intro h
+  exact absurd (h 1 1 partialOps) (by decide)
+
+example : (step (run (init 1 1) (partialOps.take 3)) (.write 0 false none)).2 = .conflictPartial := by decide
+-- the same schedule through the transactional variant is rejected as a whole
+example : (step (run (init 1 1) (partialOps.take 3)) (.write 0 true none)).2 = .conflict ∧
+    (step (run (init 1 1) (partialOps.take 3)) (.write 0 true none)).1.db = (run (init 1 1) (partialOps.take 3)).db := by
+  decide
+-- non-vacuity of `no_lost_update`: two clients race, one loses, retries, both changes survive in commit order
+example :
+    let ops : List Op := [.read 0, .read 1,
+      .modify 0 { setStatus := some 2, entry := 1, taskSt := none, addTask := false },
+      .modify 1 { setStatus := none, entry := 2, taskSt := some (0, 4), addTask := true },
+      .write 0 true none, .write 1 false none, .retry 1 false none]
+    noPartial (init 1 2) ops = true ∧ (run (init 1 2) ops).db.content = { status := 2, payload := [1, 2] }
+      ∧ (run (init 1 2) ops).commits = [(0, 0), (1, 1)] := by decide
+
+/-! ## retry -/
+
+/-- **Retry linearizes.** `retry` (read again, re-apply the uncommitted modifications, write; nothing in between)
+    always succeeds when no phase is demanded, and its effect is exactly "apply the modifications to the
+    current row": content = fold of the pending modifications over the CURRENT content, version + 1, and the
+    modifications enter the log once. -/
+theorem retry_linearizes (st nt : Nat) (ops : List Op) (c : Nat) (o : Obj) (txn : Bool)
+    (h : getObj (run (init st nt) ops) c = some o) :
+    let s := run (init st nt) ops
+    (retryOp s c txn none).2 = .ok ∧
+    (retryOp s c txn none).1.db.content = fold s.db.content o.pend ∧
+    (retryOp s c txn none).1.db.version = s.db.version + 1 ∧
+    (retryOp s c txn none).1.log = s.log ++ o.pend ∧
+    (retryOp s c txn none).1.commits = s.commits ++ [(c, s.db.version)] := by
+  intro s
+  have hd : DbT s := dbT_run (dbT_init st nt) ops
+  obtain ⟨o', r, e1, e2, e3, e4, e5, e6, e7⟩ := ready_reapply o.pend (ready_read hd c)
+  have hdb : (readOp s c).db = s.db := rfl
+  have hlog : (readOp s c).log = s.log := rfl
+  have hcm : (readOp s c).commits = s.commits := rfl
+  have hok : (upsertAll (reapply (readOp s c) c o.pend).db.tasks o'.tasks).2.2 = true := by
+    apply upsertAll_ok _ _ _ r.dist r.fits
+    rw [e5, hdb]; exact hd.d
+  have hver : ((reapply (readOp s c) c o.pend).db.version == o'.version) = true := by
+    rw [e5, hdb, e1]; simp
+  simp only [retryOp, show getObj s c = some o from h]
+  unfold writeOp
+  simp only [r.get, hver, phaseOk, Bool.and_self, if_true]
+  cases hu : upsertAll (reapply (readOp s c) c o.pend).db.tasks o'.tasks with
+  | mk rows rest =>
+    obtain ⟨mem, okk⟩ := rest
+    rw [hu] at hok
+    simp only at hok
+    subst hok
+    simp only [if_true]
+    refine ⟨by first | rfl | trivial, ?_, ?_, ?_, ?_⟩
+    · show o'.cur = fold s.db.content o.pend
+      rw [e2]
+    · show (reapply (readOp s c) c o.pend).db.version + 1 = s.db.version + 1
+      rw [e5, hdb]
+    · show (reapply (readOp s c) c o.pend).log ++ o'.pend = s.log ++ o.pend
+      rw [e6, hlog, e3]; simp
+    · show (reapply (readOp s c) c o.pend).commits ++ [(c, o'.version)] = s.commits ++ [(c, s.db.version)]
+      rw [e7, hcm, e1]
+
+/-! ## tasks -/
+
+/-- **`upsert_task` is a compare-and-swap.**  On a table with unique task ids: a matching `(id, version)` bumps
+    that row's version and sets its status, touching no other row; an unknown id inserts at version 0 without
+    touching the in-memory version; a known id with another version is a ConcurrencyError — never an overwrite. -/
+theorem task_upsert_cas (rows : List TRow) (t : TRow) (hd : Distinct rows) :
+    (∀ r ∈ rows, r.tid = t.tid → r.ver ≠ t.ver → upsert rows t = none) ∧
+    (∀ r ∈ rows, r.tid = t.tid → r.ver = t.ver →
+        ∃ rows', upsert rows t = some (rows', t.ver + 1) ∧ { r with ver := r.ver + 1, st := t.st } ∈ rows' ∧
+          (∀ r0 ∈ rows, r0.tid ≠ t.tid → r0 ∈ rows') ∧ rows'.length = rows.length) ∧
+    ((∀ r ∈ rows, r.tid ≠ t.tid) → upsert rows t = some (rows ++ [{ tid := t.tid, ver := 0, st := t.st }], t.ver)) := by
+  have hu := unique_tid hd
+  refine ⟨?_, ?_, ?_⟩
+  · intro r hr e1 e2
+    have h1 : rows.any (fun r => r.tid == t.tid && r.ver == t.ver) = false := by
+      simp only [List.any_eq_false, Bool.and_eq_true, beq_iff_eq, not_and]
+      intro r0 hr0 e0 ev
+      have : r0 = r := hu r0 hr0 r hr (by omega)
+      subst this; exact e2 ev
+    have h2 : rows.any (fun r => r.tid == t.tid) = true := by
+      simp only [List.any_eq_true, beq_iff_eq]; exact ⟨r, hr, e1⟩
+    simp [upsert, h1, h2]
+  · intro r hr e1 e2
+    have h1 : rows.any (fun r => r.tid == t.tid && r.ver == t.ver) = true := by
+      simp only [List.any_eq_true, Bool.and_eq_true, beq_iff_eq]; exact ⟨r, hr, e1, e2⟩
+    refine ⟨rows.map (fun r => if r.tid == t.tid && r.ver == t.ver then { r with ver := r.ver + 1, st := t.st } else r),
+      by simp only [upsert, h1, if_true], ?_, ?_, by simp⟩
+    · simp only [List.mem_map]
+      exact ⟨r, hr, by simp [e1, e2]⟩
+    · intro r0 hr0 hne
+      simp only [List.mem_map]
+      refine ⟨r0, hr0, ?_⟩
+      have : (r0.tid == t.tid) = false := by simp [hne]
+      simp [this]
+  · intro habs
+    have h1 : rows.any (fun r => r.tid == t.tid && r.ver == t.ver) = false := by
+      simp only [List.any_eq_false, Bool.and_eq_true, beq_iff_eq, not_and]
+      intro r hr e; exact absurd e (habs r hr)
+    have h2 : rows.any (fun r => r.tid == t.tid) = false := by
+      simp only [List.any_eq_false, beq_iff_eq]
+      intro r hr e; exact absurd e (habs r hr)
+    simp [upsert, h1, h2]
+
+/-- the task table keeps unique ids under every op sequence (what the `(id, version)` CAS relies on) -/
+theorem task_ids_unique (st nt : Nat) (ops : List Op) : Distinct (run (init st nt) ops).db.tasks :=
+  (dbT_run (dbT_init st nt) ops).d
+
+-- a stale in-memory task version is refused, a matching one bumps
+example : upsert [⟨0, 2, 0⟩, ⟨1, 0, 0⟩] ⟨0, 1, 4⟩ = none ∧
+    upsert [⟨0, 2, 0⟩, ⟨1, 0, 0⟩] ⟨0, 2, 4⟩ = some ([⟨0, 3, 4⟩, ⟨1, 0, 0⟩], 3) := by decide
+
 end Stab.Props.C07
